@@ -103,6 +103,8 @@ def _(c):
     c.ensure("velocity_is_derivative_of_position", c.all_eq(out[3:], md @ r + mv @ v), budget_ms=60000)
 
 
+@contract("C20", "convert_along_the_chain", funcs=[f"{OR}:Orientation.convert_to"],
+          assumptions=["callee contracts: expand(m, rate) is an invertible 6x6 (abstract generator), np.linalg.inv(M) M = M np.linalg.inv(M) = I", "path reversal by C20"])
 @contract("C02", "convert_to", funcs=[f"{OR}:Orientation.convert_to"],
           assumptions=["callee contracts: expand(m, rate) is an invertible 6x6 (abstract generator), np.linalg.inv(M) M = M np.linalg.inv(M) = I", "path reversal by C20"])
 def _(c):
@@ -134,6 +136,24 @@ def _(c):
     bad = mk("A")
     object.__getattribute__(bad, "__dict__").pop("A_to_B")
     c.ensure("unknown_edge_rejected", c.raises(ValueError, lambda: bad.convert_to(SymDate(0), "B")))
+    # links followed against their definition BEFORE links followed along it, and alternating directions: the matrices are applied in the order of the path
+    F = {("Q", "P"): AMat.gen("F_QP"), ("Q", "R"): AMat.gen("F_QR"), ("S", "R"): AMat.gen("F_SR"), ("S", "T"): AMat.gen("F_ST")}
+    path2 = {("P", "R"): [("P", "Q"), ("Q", "R")], ("P", "T"): [("P", "Q"), ("Q", "R"), ("R", "S"), ("S", "T")], ("T", "P"): [("T", "S"), ("S", "R"), ("R", "Q"), ("Q", "P")]}
+
+    def mk2(name):
+        w = c.world(stubs={"beyond.utils.node:Node.steps": lambda self, goal: iter(path2[(self.name, goal)]),
+                           "beyond.utils.matrix:expand": lambda m, rate=None: m})
+        w.np.identity = lambda n: AMat.I()
+        w.np.linalg.inv = lambda m: m.inv()
+        o = w.obj(f"{OR}:Orientation", name=name)
+        d = object.__getattribute__(o, "__dict__")
+        for (a_, b_), m_ in F.items():
+            d[f"{a_}_to_{b_}"] = (lambda mm: (lambda date: (mm, None)))(m_)
+        return o
+    c.ensure_nf("against_then_along", mk2("P").convert_to(SymDate(0), "R"), F[("Q", "R")] @ F[("Q", "P")].inv())
+    pt = mk2("P").convert_to(SymDate(0), "T")
+    c.ensure_nf("alternating_directions", pt, F[("S", "T")] @ F[("S", "R")].inv() @ F[("Q", "R")] @ F[("Q", "P")].inv())
+    c.ensure_nf("alternating_directions.inverse", mk2("T").convert_to(SymDate(0), "P") @ pt, AMat.I())
 
 
 @contract("C02", "center", funcs=[f"{CE}:Center.convert_to", f"{CE}:Center._to_parent"], assumptions=["callee contract: Orientation.convert_to gives the rotation to the requested axes (C02.convert_to)"])
